@@ -612,7 +612,9 @@ _EXTRA3 = {
  'C16': ' Also: the store rolled back to an earlier height and continued (proofs at the heights committed after the rollback).',
  'C17': ' Also: a recording of everything an honest peer sent in an earlier session played back to a new handshake of the same node (the answering side '
         'holds no key); an endpoint without identity key that sends the node\'s own identity proof and signed meta straight back (reflection; also a '
-        'correspondence case of the symbolic handshake).',
+        'correspondence case of the symbolic handshake); a connection aged to 2^32 - 1 frames through a hook, then the first data frame of its life put on the '
+        'wire again at the position where a 32-bit counter would be back at its value.',
+ 'C18': ' Also: the gossip path itself (PeerSet.SendToPeers): several messages of one and a half packets handed over back to back on two topics; every delivered message must be one that was handed over on that topic.',
  'C20': ' Also: deposit batches with newcomers into a pool whose provider list is full (5000 entries): tokens conserved, pool balance = reserve ledger, points = total.',
  'C03': ' One chain has a block size that several hundred small transactions fill and one block built from a mempool of 900: a FULL block of many small transactions through every path.',
  'C08': ' Also: keys with EMPTY values (nil and zero-length) set, committed and deleted in later blocks.',
@@ -624,3 +626,10 @@ for _k, _v in _EXTRA3.items():
     PROPS[_k]['rule'] = PROPS[_k]['rule'] + _v
 PROPS['C14']['modelled'] = PROPS['C14']['modelled'].replace('Not modelled: collection of evidence from partial certificates (addDSEByPartialQC)',
     'AddDSE (collection with de-duplication of identical pieces: Evidence.collect). Not modelled: where the pieces come from (addDSEByPartialQC, ELECTION votes)')
+
+_NOTE3 = {
+ 'C15': ' The healed-network simulation now has an ACTIVE Byzantine validator (re-signed leader messages, partial certificates) and a bound derived from the time debt of replicas left in different rounds; it has no Byzantine LEADER: the suspected defect O-19 (DESIGN.md 0.8.3: the lock takes its build height from the unsigned field of the PRECOMMIT message) is not exercised.',
+ 'C09': ' A commit batch above about a megabyte rotates the log, which the crash enumeration does not follow (seeded5/C09 is not caught).',
+}
+for _k, _v in _NOTE3.items():
+    PROPS[_k]['level_note'] = PROPS[_k].get('level_note', '') + _v
